@@ -47,6 +47,8 @@ def cases(tier, seed):
     K = 1 if tier == 'quick' else 2
     vs = [0, 1, 2] if tier == 'quick' else [0, 1, 2, 3]
     modes = ['seq', 'j2', 'j2+late'] if tier == 'quick' else ['seq', 'j2', 'j3', 'j2+late']
+    for where in ('unit', 'layer_test'):
+        yield ['cwd', where, 'resumed']
     menu = worlds.rot(MENU + DMENU + HMENU + CMENU, seed)
     for shape in ow.SHAPES:
         nslots = len(ow.SHAPES[shape][1])
@@ -71,12 +73,25 @@ def setup_worker():
     runrt._mods()
 
 
+def run_cwd(where, mode):
+    # real processes, relative search path, a test that changes the cwd (shared
+    # with C03): the totals must still count every layer
+    from vt.props import c03
+    viol = c03.run_cwd_case(where, mode)
+    for v in viol:
+        v['sig'] = {'part': 'cwd', 'mode': mode}
+    return viol
+
+
 def _ran_lines(b):
     return [tuple(int(x) for x in m) for m in
             runrt.RAN_RE.findall((b or b'').decode('utf-8', 'replace'))]
 
 
 def run_case(case):
+    if case[0] == 'cwd':
+        return {'evals': 1, 'nontrivial': 1, 'violations': run_cwd(case[1], case[2]),
+                'outcome': 'cwd', 'nogate': True}
     shape, sc, lf, bm, v, rep, mode = case
     spec = ow.build(shape, sc, lf, extra={'bad_modules': ['vtw.broken']} if bm else None)
     argv = list(MODEARGS[mode])
